@@ -109,7 +109,7 @@ PairCfg paircfg_from_plan(const Plan &p) {
     c.cb_s = (int) p.get("cb_s", CB_ALLOW_ALL);
     c.cb_allow_alert_c = (int) p.get("cb_alert", 0);
     c.client_trusts_server = p.get("trust", 1) != 0;
-    c.forge_server_cert = p.get("forge_s") != 0; c.forge_client_cert = p.get("forge_c") != 0; c.forge_mode = (int) p.get("forge_mode"); c.max_frag = (int) p.get("maxfrag"); c.send_sni = (int) p.get("sni");
+    c.forge_server_cert = p.get("forge_s") != 0; c.forge_client_cert = p.get("forge_c") != 0; c.forge_mode = (int) p.get("forge_mode"); c.max_frag = (int) p.get("maxfrag"); c.send_sni = (int) p.get("sni"); c.chain = p.get("chain") != 0;
     c.expected_name = p.gets("expected_name");
     c.max_early_data = (int) p.get("early", 0);
     c.ems_c = (int) p.get("ems_c", 0);
@@ -133,6 +133,7 @@ bool TlsWorld::setup(const PairCfg &c) {
     vsim_set_node(NODE_HARNESS);
     KeySpec s, k;
     s.identity = pc.server_identity; s.forge_cert_sig = pc.forge_server_cert; s.forge_cert_mode = pc.forge_mode;
+    s.chain = k.chain = pc.chain;
     s.psk = pc.psk; s.ticket_keys = pc.tickets; s.ticket_key_id = pc.ticket_key_id; s.tls13_psk = pc.tls13_ext_psk;
     if (pc.client_auth && pc.client_identity != KK_NONE) { s.ca_mask = 1u << pc.client_identity; }
     else if (pc.client_auth) { s.ca_mask = 1u << KK_RSA2048; }
